@@ -470,8 +470,8 @@ func ruleGuards(c *Ctx) {
 			continue
 		}
 		k := 0
-		eachInstr(fn, func(b *ssa.BasicBlock, ins ssa.Instruction) {
-			lk, ok := ins.(*ssa.Lookup)
+		c.P.deepEach(fn, 2, func(site DeepSite) {
+			lk, ok := site.Ins.(*ssa.Lookup)
 			if !ok {
 				return
 			}
@@ -551,7 +551,7 @@ func ruleGuards(c *Ctx) {
 								continue
 							}
 						}
-						rc := n.ReachCond(fn, lk.Block(), u.Block())
+						rc := n.ReachCond(site.Fn, lk.Block(), u.Block())
 						if u.Block() == lk.Block() {
 							continue
 						}
